@@ -290,3 +290,25 @@ add('C10.need_calib', 'C10', (RM, "          == qtyping.ComputePrecision.INTEGER
 add('C10.init_extra_skip', 'C10', (CAL, "        op_key = tfl_flatbuffer_utils.TFL_OP_CODE_TO_NAME[op_code]\n        # Step1: query",
     "        op_key = tfl_flatbuffer_utils.TFL_OP_CODE_TO_NAME[op_code]\n        if op_key == qtyping.TFLOperationName.BATCH_MATMUL:\n          continue\n        # Step1: query"),
     'C10.R2', 'one selection loop skips an operator kind the others do not')
+
+# ---------------------------------------------------------------------- C09
+CU = 'utils/calibration_utils.py'
+add('C09.load_nocopy', 'C09', (CAL, "    self._model_qsvs = copy.deepcopy(model_qsvs)", "    self._model_qsvs = model_qsvs"), 'C09.R1', 'previous result kept by reference', control=True)
+add('C09.smoothing', 'C09', (CU, "smoothing_factor: float = 0.95", "smoothing_factor: float = 0.9"), 'C09.R2', 'EMA weight 0.9', control=True)
+add('C09.fold_plus', 'C09', (CU, "  return smoothing_factor * w + (1.0 - smoothing_factor) * update", "  return smoothing_factor * w + (1.0 + smoothing_factor) * update"), 'C09.R2', '(1 + s) in the fold')
+add('C09.fold_swapped', 'C09', (CU, "  updated_qsv[\"min\"] = _update_moving_average(\n      smoothing_factor, qsv[\"min\"], new_qsv[\"min\"]\n  )", "  updated_qsv[\"min\"] = _update_moving_average(\n      smoothing_factor, new_qsv[\"min\"], qsv[\"min\"]\n  )"),
+    'C09.R2', 'old and new swapped for the min statistic')
+add('C09.hoist_set', 'C09', [(CAL, "    for data in calibration_dataset:\n      # Initialize tensor names that are updated in this round of calibration.\n      updated_tensor_names = set()\n",
+    "    updated_tensor_names = set()\n    for data in calibration_dataset:\n")], 'C09.R3', 'de-duplication set hoisted out of the sample loop: only the first sample counts')
+add('C09.min_is_max', 'C09', ('algorithms/uniform_quantize/naive_min_max_quantize.py', "        \"min\": np.min(tensor_content, axis=None, keepdims=True),", "        \"min\": np.max(tensor_content, axis=None, keepdims=True),"),
+    'C09.R4', 'runtime min recorded with np.max')
+add('C09.update_in_place', 'C09', (CU, "  updated_qsv = {}\n  updated_qsv[\"min\"] = _update_moving_average(", "  updated_qsv = qsv\n  updated_qsv[\"min\"] = _update_moving_average("),
+    'C09.R6', 'moving_average_update overwrites the old statistic object in place')
+add('C09.no_preserve', 'C09', ('utils/tfl_interpreter_utils.py', "      experimental_preserve_all_tensors=True,\n", ""), 'C09.R7', 'interpreter no longer preserves intermediate tensors')
+add('C09.io_in_init', 'C09', [(CAL, "      # Add input/output operators to the subgraph.\n      subgraph.operators += (\n          tfl_flatbuffer_utils.get_subgraph_input_output_operators(subgraph)\n      )\n      for op in subgraph.operators:\n        if isinstance(op, qtyping.IOOperator):",
+    "      for op in subgraph.operators:\n        if isinstance(op, qtyping.IOOperator):"),
+    (CAL, "        for tensor_name, qsv in op_qsvs.items():\n          if tensor_name not in self._model_qsvs:\n            self._model_qsvs[tensor_name] = qsv\n",
+     "        for tensor_name, qsv in op_qsvs.items():\n          if tensor_name not in self._model_qsvs:\n            self._model_qsvs[tensor_name] = qsv\n      subgraph.operators += (\n          tfl_flatbuffer_utils.get_subgraph_input_output_operators(subgraph)\n      )\n")],
+    'C09.R8', 'virtual IO operators attached only on the not-resumed path (seeded a1-C09)', allow_error=True)
+add('C09.sorted_data', 'C09', (CAL, "    for data in calibration_dataset:", "    for data in reversed(list(calibration_dataset)):"), 'C09.R3', 'dataset folded in reverse order')
+add('C09.twin_fold', 'C09', (CU, "  return smoothing_factor * w + (1.0 - smoothing_factor) * update", "  return update + smoothing_factor * (w - update)"), (), 'algebraically identical fold', kind='twin')
